@@ -23,13 +23,16 @@ PEER = ['own', 'own-exception', 'stale', 'stale+own', 'other-unit', 'unit-0', 'u
 REQS = ['read-registers', 'read-coils', 'write-single', 'write-registers', 'mask-write', 'diagnostic',
         'read-discrete', 'read-input', 'write-coil', 'write-coils', 'read-write-registers', 'diagnostic-0E', 'device-information']
 HISTORIES = {'none': (), 'one-ok': ('write-single',), 'one-late': (('read-registers', 'late'),),
-             'ok+late': ('write-single', ('read-registers', 'late'))}
+             'ok+late': ('write-single', ('read-registers', 'late')),
+             'reused': (('@main', 'reuse'),)}      # the main request OBJECT was executed once before (healthy), then edited
 
 
 def judge(acc, spec, hname, env, sim, recs, hang):
     kind = spec.kind
     wit = dict(client=kind, request=spec.request, history=hname, tid0=spec.tid0, split=spec.split, roi=spec.roi,
                choices=list(env.choices))
+    if spec.retries != 3:
+        wit['retries'] = spec.retries
     cfg = '%s/%s' % (kind, spec.request)
     if hang or recs is None:
         return       # C13 matter
@@ -56,7 +59,8 @@ def judge(acc, spec, hname, env, sim, recs, hang):
             continue
         same = [f for f in inside if f['pdu'] == body]
         if same:
-            f = same[0]
+            # several frames may carry these bytes: name the fault after the one that is closest to being the answer
+            f = min(same, key=lambda f: (f['unit'] != clientsim.UNIT, f['fc'] not in (m['fc'], m['fc'] | 0x80), bool(uses_tid and f['tid'] != rec['tid'])))
             if uses_tid and f['tid'] != rec['tid']:
                 what = 'wrong-tid'
             elif f['unit'] != clientsim.UNIT:
@@ -72,6 +76,13 @@ def judge(acc, spec, hname, env, sim, recs, hang):
                       % (i, rec['role'], rec['tid'], d[1], body.hex()), cfg)
     if not env.deviations():
         main = [r for r in recs if r['role'] == 'main'][0]
+        # what went out is the request as it stands when execute() is called, under the id the client gave it
+        from ref import adu
+        sent = adu.parse_one(spec.framing, main['writes'][0]) if main['writes'] else None
+        if sent is None or sent['pdu'] != pdu.encode(main['request']) or (uses_tid and sent['tid'] != main['tid']):
+            acc.violation('C08/%s/%s/request-frame-not-the-request/%s' % (kind, spec.request, hname), wit,
+                          'frame written %s, the request is %s (transaction id %r)'
+                          % (main['writes'][0].hex() if main['writes'] else None, pdu.encode(main['request']).hex(), main['tid']), cfg)
         d = clientsim.describe(main['result'])
         own = [f for f in sim.delivered if f.get('what') == 'own' and f['call_pushed'] == recs.index(main)]
         if not own or d[0] != 'response' or d[2] != own[-1]['pdu']:
@@ -115,10 +126,12 @@ def shard(args):
     for hname, hist in HISTORIES.items():
         for tid0 in (0, 0xFFFE, 0xFFFF):
             for split in (splits if kind != 'udp' else ('whole',)):     # a datagram is never split
-                for roi in (False, True):
+                for roi, retries in ((False, 3), (True, 3), (True, 1)):
                     if tier == 'quick' and roi and (split != 'whole' or tid0 != 0):
                         continue
-                    spec = clientsim.Spec(kind, request, retries=3, retry_on_invalid=roi, retry_on_empty=roi, history=hist, tid0=tid0,
+                    if retries == 1 and hname not in ('none', 'one-late'):
+                        continue
+                    spec = clientsim.Spec(kind, request, retries=retries, retry_on_invalid=roi, retry_on_empty=roi, history=hist, tid0=tid0,
                                           peer_menu=PEER, read_menu=['full'], send_menu=['ok'], split=split)
                     explore_spec(acc, spec, hname, bound)
     acc.sample(dict(client=kind, request=request, peer_menu=PEER, histories=list(HISTORIES), deviation_bound=bound))
@@ -148,7 +161,7 @@ def replay(w):
         vs = [v for v in a2.violations if 'diverged' in v['witness']]
         return bool(vs), '\n'.join(v['msg'] for v in vs) or 'no divergence this time'
     acc = Acc()
-    spec = clientsim.Spec(w['client'], w['request'], retries=3, retry_on_invalid=w['roi'], retry_on_empty=w['roi'], history=HISTORIES[w['history']],
+    spec = clientsim.Spec(w['client'], w['request'], retries=w.get('retries', 3), retry_on_invalid=w['roi'], retry_on_empty=w['roi'], history=HISTORIES[w['history']],
                           tid0=w['tid0'], peer_menu=PEER, read_menu=['full'], send_menu=['ok'], split=w['split'])
     env = choice.Env(w['choices'])
     sim = clientsim.Sim(env, spec)
